@@ -5,6 +5,7 @@
 //!        X = the setup hook drops it, K = proceed, and the client keeps the connection open across StopAccepting,
 //!        Q = proceed; the client sends its bytes at once but reads the responses only after the server was told to stop and
 //!        the K connections were closed (with every pool worker held by a K connection its job waits in the queue meanwhile).
+//!        W = proceed after shutting down the write half of the accepted stream.  Prefix `B!` = all connections are made at once.
 //!        Connections are made one after the other; a final extra connection makes the setup hook answer StopAccepting.
 //! impl:  per mode `mode=<name> conns=[<transcript>#hooks=<S,P*,T(ok|err)>|...] returned=<0|1>` joined by ' ## '
 use crate::s_conn::{app, parse_response};
@@ -30,11 +31,14 @@ fn free_port() -> u16 {
     l.local_addr().unwrap().port()
 }
 
-fn run_mode(mode: &str, port: u16, conns: &[(bool, Vec<String>)], keep: &[bool], kinds: &[char], threads: usize, max_head: usize, linger_ms: u64) -> String {
+fn run_mode(mode: &str, port: u16, conns: &[(bool, Vec<String>)], keep: &[bool], kinds: &[char], threads: usize, max_head: usize, linger_ms: u64, burst: bool) -> String {
     let log: Arc<Mutex<HookLog>> = Arc::new(Mutex::new(HookLog::default()));
     let stop = Arc::new(AtomicBool::new(false));
     let decisions: Arc<Vec<bool>> = Arc::new(conns.iter().map(|c| c.0).collect());
     let clones: Arc<Vec<bool>> = Arc::new(kinds.iter().map(|k| *k == 'C').collect());
+    // kind W: the setup hook shuts down the write half of the accepted stream before it proceeds (stand-in for a peer that
+    // reset the connection): every response write on this connection fails, and the teardown hook must be told so
+    let wshut: Arc<Vec<bool>> = Arc::new(kinds.iter().map(|k| *k == 'W').collect());
     let accepted = Arc::new(AtomicUsize::new(0));
     let mut b = Server::builder(("127.0.0.1", port)).unwrap();
     b.thread_count(threads);
@@ -43,6 +47,7 @@ fn run_mode(mode: &str, port: u16, conns: &[(bool, Vec<String>)], keep: &[bool],
     {
         let (log, stop, decisions, accepted) = (log.clone(), stop.clone(), decisions.clone(), accepted.clone());
         let clones = clones.clone();
+        let wshut = wshut.clone();
         b.connection_setup_hook(move |c| {
             if stop.load(Ordering::SeqCst) { return ConnectionSetupAction::StopAccepting; }
             match c {
@@ -51,7 +56,12 @@ fn run_mode(mode: &str, port: u16, conns: &[(bool, Vec<String>)], keep: &[bool],
                     let mut l = log.lock().unwrap();
                     l.conns.push(vec!["S".to_string()]);
                     l.by_port.push((peer.port(), i));
+                    drop(l);
+                    // burst histories: the hook of the first connection lingers, so that all the others are waiting in the
+                    // listen backlog when the accept loop goes on
+                    if burst && i == 0 { std::thread::sleep(Duration::from_millis(5)); }
                     if !decisions.get(i).copied().unwrap_or(true) { return ConnectionSetupAction::Drop; }
+                    if wshut.get(i).copied().unwrap_or(false) { let _ = stream.shutdown(std::net::Shutdown::Write); }
                     if clones.get(i).copied().unwrap_or(false) {
                         // hand back a different TcpStream object (another descriptor) for the same connection
                         match stream.try_clone() { Ok(c) => { drop(stream); ConnectionSetupAction::Proceed(c) } Err(_) => ConnectionSetupAction::Proceed(stream) }
@@ -88,6 +98,8 @@ fn run_mode(mode: &str, port: u16, conns: &[(bool, Vec<String>)], keep: &[bool],
                     l.conns.push(vec![format!("T?({})", if result.is_ok() { "ok" } else { "err" })]);
                 }
             }
+            // a hook whose output depends on the result it is handed: a last-gasp 599 on an error (all modes must agree on it)
+            if result.is_err() { let _ = (&stream).write_all(b"HTTP/1.1 599 Teardown Saw Error\r\ncontent-length: 0\r\n\r\n"); }
             // a hook that closes the socket and then keeps working for a while: whatever the server still does for
             // this connection afterwards must not touch a later connection that got the same descriptor number
             if linger_ms > 0 { drop(stream); std::thread::sleep(Duration::from_millis(linger_ms)); }
@@ -120,8 +132,11 @@ fn run_mode(mode: &str, port: u16, conns: &[(bool, Vec<String>)], keep: &[bool],
             match s.read(&mut tmp) { Ok(0) => break "CLOSED".to_string(), Ok(n) => rbuf.extend_from_slice(&tmp[..n]), Err(e) if e.kind() == std::io::ErrorKind::WouldBlock || e.kind() == std::io::ErrorKind::TimedOut => break "TIMEOUT".to_string(), Err(_) => break "CLOSED".to_string() }
         }
     };
+    // burst histories: every connection is made before any of them is used
+    let mut pre: Vec<Option<TcpStream>> = if burst { conns.iter().map(|_| connect(Duration::from_secs(2))).collect() } else { Vec::new() };
     for (ci, (_, steps)) in conns.iter().enumerate() {
-        let mut s = match connect(Duration::from_secs(2)) { Some(s) => s, None => { transcripts.push("NOCONNECT".to_string()); continue; } };
+        let made = if burst { pre[ci].take() } else { connect(Duration::from_secs(2)) };
+        let mut s = match made { Some(s) => s, None => { transcripts.push("NOCONNECT".to_string()); continue; } };
         let _ = t0;
         // the server's setup hook must have seen this connection before the script goes on (otherwise, on a slow machine,
         // a connection still in the listen backlog would meet a later decision, e.g. StopAccepting)
@@ -144,10 +159,14 @@ fn run_mode(mode: &str, port: u16, conns: &[(bool, Vec<String>)], keep: &[bool],
                 _ => { let r = read_one(&mut s, &mut rbuf); outs.push(r); }
             }
         }
-        // final state: does the server close within 400 ms?
+        // final state: does the server close within 400 ms?  (complete responses that still arrive - the teardown hook's
+        // 599 - are appended to the transcript; anything else is DATA)
         s.set_read_timeout(Some(Duration::from_millis(400))).unwrap();
         let mut tmp = [0u8; 1024];
-        let fin = match s.read(&mut tmp) { Ok(0) => "EOF", Ok(_) => "DATA", Err(e) if e.kind() == std::io::ErrorKind::WouldBlock || e.kind() == std::io::ErrorKind::TimedOut => "OPEN", Err(_) => "EOF" };
+        let fin = loop {
+            while let Some((used, r)) = parse_response(&rbuf) { rbuf.drain(..used); outs.push(r); }
+            match s.read(&mut tmp) { Ok(0) => break if rbuf.is_empty() { "EOF" } else { "DATA" }, Ok(n) => rbuf.extend_from_slice(&tmp[..n]), Err(e) if e.kind() == std::io::ErrorKind::WouldBlock || e.kind() == std::io::ErrorKind::TimedOut => break if rbuf.is_empty() { "OPEN" } else { "DATA" }, Err(_) => break "EOF" }
+        };
         if keep[ci] { held.push((ci, s)); transcripts.push(format!("{}|{}", outs.join(";"), fin)); continue; }
         drop(s);
         // give the server time to notice the close and run its teardown for this connection
@@ -199,6 +218,9 @@ pub fn run(case: &str) -> String {
     // P = proceed, X = setup hook drops it, K = proceed and the client keeps it open across StopAccepting
     // optional prefixes `T<n>!` (thread_count), `N<n>!` (max_request_head_size), `L<ms>!` (the teardown hook closes the stream and lingers)
     let (mut threads, mut max_head, mut linger_ms, mut case) = (4usize, 0usize, 0u64, case);
+    // `B!` = burst: all connections are made at once, before any of them is used
+    let burst = case.starts_with("B!");
+    if burst { case = &case[2..]; }
     loop {
         let b = case.as_bytes();
         if b.len() > 2 && (b[0] == b'T' || b[0] == b'N' || b[0] == b'L') && b[1].is_ascii_digit() {
@@ -218,7 +240,7 @@ pub fn run(case: &str) -> String {
     // three distinct ports, chosen while all three probe listeners are still bound
     let ports: Vec<u16> = { let ls: Vec<TcpListener> = (0..3).map(|_| TcpListener::bind("127.0.0.1:0").unwrap()).collect(); ls.iter().map(|l| l.local_addr().unwrap().port()).collect() };
     std::thread::scope(|sc| {
-        let hs: Vec<_> = ["pool", "threaded", "epoll"].iter().zip(ports.iter()).map(|(m, port)| { let (conns, keep, kinds, port) = (&conns, &keep, &kinds, *port); sc.spawn(move || run_mode(m, port, conns, keep, kinds, threads, max_head, linger_ms)) }).collect();
+        let hs: Vec<_> = ["pool", "threaded", "epoll"].iter().zip(ports.iter()).map(|(m, port)| { let (conns, keep, kinds, port) = (&conns, &keep, &kinds, *port); sc.spawn(move || run_mode(m, port, conns, keep, kinds, threads, max_head, linger_ms, burst)) }).collect();
         hs.into_iter().map(|h| h.join().unwrap_or_else(|_| "mode=? PANIC".into())).collect::<Vec<_>>().join(" ## ")
     })
 }
@@ -229,7 +251,7 @@ pub fn gen(ctx: &Ctx) {
     let mut out = Out::new(&ctx.dir, "modes");
     out.rule = "histories of 1..4 sequential connections, each with a setup decision (proceed / drop) and 0..3 lock-step requests (no body / fixed / chunked; handlers: read all, none, close, Err, slow (answer first, linger 25 ms: the next request or the close arrives while the request is in flight), \
                 hook answers; malformed head; client close without request), run against serve, serve_threaded and serve_epoll on real listeners with logging setup / pre-routing / teardown hooks; \
-                one history in six keeps thread_count (4) connections open side by side; the server is then stopped through the setup hook; one request in eight is followed at once by the client's FIN (the response is read afterwards); the pre-routing hook answers alone, with a close token, or to a request asking for close; in one history in four the teardown hook closes the stream and lingers 25 ms; one proceeding connection in five is handed back by the setup hook as a clone of the accepted stream; one history in seven runs a 1-2 thread pool whose workers are all held by open connections while one more connection waits in the queue when the server is stopped; after a close signal the client tries a further request half of the time; 1..3 Expect: 100-continue exchanges on one connection (compared across modes only). non-trivial = at least one request answered".into();
+                one history in six keeps thread_count (4) connections open side by side; the server is then stopped through the setup hook; one request in eight is followed at once by the client's FIN (the response is read afterwards); the pre-routing hook answers alone, with a close token, or to a request asking for close; in one history in four the teardown hook closes the stream and lingers 25 ms; one proceeding connection in five is handed back by the setup hook as a clone of the accepted stream; one history in seven runs a 1-2 thread pool whose workers are all held by open connections while one more connection waits in the queue when the server is stopped; after a close signal the client tries a further request half of the time; 1..3 Expect: 100-continue exchanges on one connection (compared across modes only); the teardown hook writes a 599 response when it is handed an error; write-dead connections (setup hook shuts down the write half: every answer, also a 400, fails to be written); bursts of 3..7 connections made at once with runs of consecutive Drop decisions. non-trivial = at least one request answered".into();
     let n = if ctx.thorough { 1000 } else { 60 };
     for _ in 0..n {
         let nc = rng.range(1, 4);
@@ -303,6 +325,29 @@ pub fn gen(ctx: &Ctx) {
         if rng.chance(1, 4) && !case.starts_with('T') { case = format!("L25!{case}"); }
         let r = run(&case);
         out.emit(&case, &r, &class, r.contains(",k|") || r.contains(",k;") || r.contains(",c|"));
+    }
+    // write-dead connections (kind W): one request whose answer - also a 400 - cannot be written: the teardown hook must see the error
+    for (i, first) in [&b"GET /none HTTP/1.1\r\n\r\n"[..], b"GET / HTTP/1.1\r\nbroken header\r\n\r\n", b"POST /all HTTP/1.1\r\nContent-Length: 3\r\n\r\nabc", b"GET /err HTTP/1.1\r\n\r\n", b"G\x01T / HTTP/1.1\r\n\r\n"].iter().enumerate() {
+        if !ctx.thorough && i >= 3 && (ctx.seed + i as u64) % 2 == 0 { continue; }
+        let w = format!("W:D{};R", hex(first));
+        let case = match i % 3 { 0 => w, 1 => format!("P:D{};R/{w}", hex(b"GET /none HTTP/1.1\r\n\r\n")), _ => format!("{w}/P:D{};R", hex(b"GET /none HTTP/1.1\r\n\r\n")) };
+        let r = run(&case);
+        out.emit(&case, &r, "write-dead", true);
+    }
+    // bursts: 3..7 connections made at once while the setup hook of the first one lingers; runs of two or three consecutive
+    // Drop decisions with proceeding connections behind them (seed C16-g: a Drop ended serve_epoll's accept drain)
+    for _ in 0..(if ctx.thorough { 40 } else { 4 }) {
+        let nc = rng.range(3, 7) as usize;
+        let run_at = rng.below((nc - 2) as u64) as usize;
+        let run_len = rng.range(2, 3).min((nc - 1 - run_at) as u64) as usize;
+        let r = Req { method: "GET", path: "/none".into(), fields: vec![], body: vec![] };
+        let cs: Vec<String> = (0..nc).map(|i| {
+            if i >= run_at && i < run_at + run_len { "X:".to_string() + &if rng.chance(1, 2) { exchange(&mut rng, &r, true).join(";") } else { String::new() } }
+            else { format!("{}:{}", if rng.chance(1, 6) { "X" } else { "P" }, exchange(&mut rng, &r, true).join(";")) }
+        }).collect();
+        let case = format!("B!{}", cs.join("/"));
+        let res = run(&case);
+        out.emit(&case, &res, "burst", true);
     }
     // the close-signal histories of `modes09`, once
     close_signal_histories(ctx, &mut rng, &mut out, 1);
